@@ -347,6 +347,22 @@ def _same_ip(a, b) -> bool:
         return False
 
 
+_ACTION_KINDS = ('communities-differ', 'community-attribute-flags', 'attribute-pack-raises', 'nexthop-differs', 'unencodable', 'valid-rule-refused')
+_LENGTH_KINDS = ('length-prefix', 'pack-raises', 'valid-rule-refused', 'unencodable')
+
+
+def _sig_cls(cls: str, kind: str) -> str:
+    """Keep the class of a signature about the thing that is wrong: an NLRI mismatch seen in an action case,
+    a long-list case or a named-value case is not about the action, the length or the name."""
+    if cls.startswith('action') and not kind.startswith(_ACTION_KINDS):
+        return 'multi'
+    if cls.startswith('nlri-length-') and not kind.startswith(_LENGTH_KINDS):
+        return 'long-list'
+    if cls.endswith('-name') and kind != 'value':
+        return 'named-value'
+    return cls
+
+
 def eval_encode(rule, path: str, style, cls: str, either: bool = False):
     """Run one (rule, entry point, text style).  -> (outcome key, nontrivial, [(signature, what)])"""
     text = fs.render(rule, path, style)
@@ -356,7 +372,7 @@ def eval_encode(rule, path: str, style, cls: str, either: bool = False):
     shown = text if len(text) < 300 else text[:140] + ' ... ' + text[-120:]
 
     def v(kind, what):
-        viols.append((f'encode:{cls}:{kind}', f'[{path}] {shown!r}: {what}'))
+        viols.append((f'encode:{_sig_cls(cls, kind)}:{kind}', f'[{path}] {shown!r}: {what}'))
 
     st = obs['status']
     if st == 'refused':
